@@ -16,7 +16,7 @@ EXHAUSTIVE = {"quick": "every dataset (3 elements, <=2 rankings) x (every insert
               "thorough": "same for <=3 rankings (every 3rd) and 4 elements (every 5th), random larger pairs"}
 ASSUMPTIONS = ["set iteration order is reached through insertion order and CPython's small-table collisions "
                "({0,8,16,24}); PYTHONHASHSEED=0 fixes string hashing; a second hash seed is used in thorough"]
-NAMINGS = ["collide", "letters", "ints", "neg", "weird"]
+NAMINGS = ["collide", "letters", "ints", "neg", "weird", "zeropad"]
 
 
 def _orders(D, variant):
@@ -81,7 +81,7 @@ def pair_cases(dss, rng, others=3):
         for P, v in partners:
             cases.append({"a": D, "oa": _orders(D, 0), "b": P, "ob": _orders(P, v), "naming": naming,
                           "ne": max(grids.universe(D) + grids.universe(P))})
-    return cases
+    return _fix_naming(cases)
 
 
 def mutation_cases(dss, rng):
@@ -96,8 +96,18 @@ def mutation_cases(dss, rng):
             ops.append({"op": "remove_elements", "S": [U[k % len(U)]]})
         for op in ops:
             for P in (D, list(reversed(D)), dss[rng.randrange(len(dss))]):
-                cases.append({"a": D, "oa": _orders(D, 0), "b": P, "ob": _orders(P, 1), "naming": NAMINGS[k % 5],
+                cases.append({"a": D, "oa": _orders(D, 0), "b": P, "ob": _orders(P, 1), "naming": NAMINGS[k % 6],
                               "ne": max(grids.universe(D) + grids.universe(P)), "ops": [op]})
+    return cases
+
+
+def _fix_naming(cases):
+    """the zero-padded digit names are distinct elements only in a str-typed dataset: both datasets must contain the
+    letter-named element 3"""
+    for c in cases:
+        if c["naming"] == "zeropad" and not (3 in grids.universe(c["a"]) and 3 in grids.universe(c["b"])
+                                             and max(grids.universe(c["a"]) + grids.universe(c["b"])) <= 4):
+            c["naming"] = "letters"
     return cases
 
 
